@@ -791,7 +791,9 @@ def number_print_spec(ctx, kinds, lo, hi, what, relerr=False):
             evs = [e for e in o.path.events if e[0].startswith("new_")]
             fmt = {"Binary": "new_binary", "Octal": "new_octal", "Hexadecimal": "new_upper_hex", "Raw": "new_display"}[k]
             if len(evs) != 1 or evs[0][0] != fmt:
-                ctx.failures.append(("%s number is not printed with %s (events: %s)" % (k, fmt, [e[0] for e in evs]), {}, None))
+                import struct as _struct
+                rp_raw = ("m_replay_number_print", [[ex.discr("NumberType", k)], list(_struct.pack("<d", float(max(lo, min(hi, 1664582400)))))])
+                ctx.failures.append(("%s number is not printed with %s (events: %s)" % (k, fmt, [e[0] for e in evs]), {}, rp_raw))
                 continue
             v = evs[0][1][0]
             if not isinstance(v, IntV):
@@ -2932,6 +2934,10 @@ def _(ctx):
         def conf(name, i, ty):
             return cfgv.field(cfields.index(name), "config::" + ("MoneyConfig" if name == "money_config" else "NumberConfig")).field(i, ty)
         x = me.field(0, "f64").t
+        if kind == "MoneyItem":
+            # bound: currencies with at most 6 fraction digits (config.json's table has 0..4); keeps a digit-count loop in print finite
+            cid0 = me.field(1, "Rc<types::CurrencyInfo>").id
+            ex.assumptions.append(z3.Function("currency.f%d" % cur_fields.index("decimal_digits"), z3.IntSort(), z3.IntSort())(cid0) <= 6)
         n_ok = 0
         for o in ex.run(fn, [RefV(ItemV(kind, me)), RefV(cfgv), RefV(sess)], Path()):
             ctx.paths += 1
@@ -3673,7 +3679,7 @@ def written_literal(sign, groups, frac, ts, ds, tag):
     return chars, digits, fr
 
 
-@spec("C08", "m_number_literal", "number_regex_parser (MIR; one regex match as input, its DECIMAL group a literal WRITTEN in the configured convention: optional sign, 1..3 digit groups joined by the thousands separator, optional decimal separator + 1..3 fraction digits, all digits symbolic; str::replace and f64 parsing modelled on the written text): under both separator conventions the regex admits ('.' decimal with ',' groups and ',' decimal with '.' groups) the token is the intended number, so rewriting a literal into the other convention under that configuration denotes the same value; a magnitude suffix k M G T P Z Y multiplies by the power of 1000, any other trailing letters by 1")
+@spec("C08", "m_number_literal", "number_regex_parser (MIR; one regex match as input, its DECIMAL group a literal WRITTEN in the configured convention: optional sign, 1..3 digit groups joined by the thousands separator or one run of 19 / 20 digits, optional decimal separator + 1..3 fraction digits, all digits symbolic; str::replace and f64 parsing modelled on the written text): under both separator conventions the regex admits ('.' decimal with ',' groups and ',' decimal with '.' groups) the token is the intended number, so rewriting a literal into the other convention under that configuration denotes the same value; a magnitude suffix k M G T P Z Y multiplies by the power of 1000, any other trailing letters by 1")
 def _(ctx):
     number_literal_spec(ctx)
 
@@ -3783,8 +3789,7 @@ def literal_job(job):
             if n_ev == 0 and parser == "money_regex_parser":
                 continue      # unknown currency name: the match is skipped (decided by the currency tables, not by the number)
             if n_ev != 1 or not isinstance(tok, EnumV):
-                if ex.feasible(o.path):
-                    ctx.failures.append(("the literal %s (%s) does not produce exactly one %s token" % (label, parser, LITERAL_PARSERS[parser][1]), {}, None))
+                ctx.reachable(ex, o.path, "the literal %s (%s) does not produce exactly one %s token" % (label, parser, LITERAL_PARSERS[parser][1]), rp)
                 continue
             seen_token = True
             if ctx.claim(ex, o.path, tok.f[0].t == intended * z3.ToReal(factor), "the literal %s (%s) does not denote the number written (times the power of 1000 of its suffix)" % (label, parser), rp) == "unsat":
@@ -3811,6 +3816,9 @@ def number_literal_spec(ctx, parsers=("number_regex_parser",), wide=False):
             shapes = list(itertools.product(("", "-", "+"), ((1,), (2,), (3,), (1, 3), (2, 3), (3, 3), (1, 3, 3), (2, 3, 3), (3, 3, 3)), (0, 1, 2, 3)))
         if parser != "number_regex_parser" and not wide:
             shapes = [sh for sh in shapes if sh[1] in ((1,), (1, 3), (2, 3, 3)) and sh[0] in ("", "-")]
+        if parser == "number_regex_parser":
+            # one long run of digits (beyond every integer type): still the number written
+            shapes += [("", (20,), 0), ("-", (19,), 0), ("", (19,), 1)]
         for (ts, ds) in ((",", "."), (".", ","), ("", "."), ("", ",")):
             jobs += [(parser, ts, ds) + sh for sh in shapes if ts or len(sh[1]) == 1]
     with mp.Pool(min(16, mp.cpu_count())) as pool:
@@ -4015,10 +4023,12 @@ def _(ctx):
     ctx.part.functions += ["date_rules::at_date", "tokinizer::tools::get_number_or_time"]
     ctx.paths += len(outs)
     src, tm = toks["source"], toks["time"]
-    d, _dz = tz_fields(src, "Date")
+    d, dz = tz_fields(src, "Date")
+    _tv0, tz_t = tz_fields(tm, "Time")
+    ex.assumptions.append(z3.And(dz >= -12 * 60, dz <= 14 * 60, tz_t >= -12 * 60, tz_t <= 14 * 60))
     n_ok = 0
     x = fval(tm, "Number").t
-    rp = ("m_replay_at_date", [(tag_is(ex, tm, "Number"), "bool"), (x, "f64")])
+    rp = ("m_replay_at_date", [(tag_is(ex, tm, "Number"), "bool"), (x, "f64"), (dz, "i32"), (tz_t, "i32")])
     for o in outs:
         if o.kind == "panic":
             ctx.reachable(ex, o.path, "at_date can panic: " + o.msg, rp)
@@ -4052,6 +4062,16 @@ def _reuse(prop, name):
         if sp.prop == prop and sp.name == name:
             return sp.fn
     raise Unsupported("spec %s/%s not registered" % (prop, name))
+
+
+@spec("C14", "m_at_date", "at_date registered for C14 as well ('<date> at <time> as unix'): the date-time is that date at the time's own clock reading, whatever zones the two operands carry (offsets within -12 h..+14 h)")
+def _(ctx):
+    _reuse("C01", "m_at_date")(ctx)
+
+
+@spec("C09", "m_at_date", "at_date registered for C09 as well")
+def _(ctx):
+    _reuse("C01", "m_at_date")(ctx)
 
 
 @spec("C14", "m_parse_timezone_gmt", "parse_timezone registered for C14 as well: 'N to GMT+-h:mm' is shown in the requested zone only if the zone's offset is sign * (60 h + mm) minutes")
@@ -4340,6 +4360,67 @@ def _(ctx):
 @spec("C02", "m_token_location", "add_token_location registered for C02 as well: the value does not depend on spacing because a later pattern cannot claim characters of an earlier token")
 def _(ctx):
     token_location_spec(ctx)
+
+
+@spec("C18", "m_text_field_case", "TokenType::field_compare for a {TEXT:name:EXPECTED} field against a text token (MIR; both texts three symbolic letters of either case, to_lowercase modelled on the letter codes): the field matches exactly when the two texts are equal ignoring case - whatever the case of the EXPECTED text in the registered pattern - and a field without an expected text matches every text")
+def _(ctx):
+    ex = new_exec("real")
+
+    class AsciiStrV(StrV):
+        def __init__(self, codes):
+            t = z3.Concat(*[z3.StrFromCode(c) for c in codes]) if len(codes) > 1 else z3.StrFromCode(codes[0])
+            StrV.__init__(self, t)
+            self.codes = list(codes)
+
+    def lower(c):
+        return z3.If(z3.And(c >= 65, c <= 90), c + 32, c)
+
+    def h_lower(ex_, name, args, path, depth, caller):
+        v = models.deref(args[0])
+        if not isinstance(v, AsciiStrV):
+            return NotImplemented
+        return iter([execmir_Outcome("return", path, AsciiStrV([lower(c) for c in v.codes]))])
+
+    def h_eq(ex_, name, args, path, depth, caller):
+        a, b = models.deref(args[0]), models.deref(args[1])
+        if not (isinstance(a, AsciiStrV) and isinstance(b, AsciiStrV)):
+            return NotImplemented
+        r = z3.And([x == y for x, y in zip(a.codes, b.codes)]) if len(a.codes) == len(b.codes) else z3.BoolVal(False)
+        return iter([execmir_Outcome("return", path, z3.Not(r) if name.endswith("::ne") else r)])
+    ex.handlers.insert(0, (_re.compile(r"(^|::)(<impl str>::)?to_lowercase$"), h_lower))
+    ex.handlers.insert(0, (_re.compile(r"PartialEq.*>::(eq|ne)$"), h_eq))
+    ex.handlers.insert(0, (_re.compile(r"^core::option::Option::<.*>::map_or::<.*>$"), models.h_option_map_or))
+    letters = [ord(c) for c in "qxzjQXZJ"]
+    def word(tag):
+        cs = []
+        for i in range(3):
+            c = z3.Int("%s%d" % (tag, i))
+            ex.domain.append(z3.Or([c == l for l in letters]))
+            ex.inputs["%s%d" % (tag, i)] = c
+            cs.append(c)
+        return cs
+    e, t = word("e"), word("t")
+    fn = [f for nm, f in ex.fns.items() if _re.search(r"types::<impl at src/types\.rs[^>]*>::field_compare$", nm) and "TokenType" in (f.args[0][1] if f.args else "")]
+    if len(fn) != 1:
+        raise Unsupported("TokenType::field_compare not found (%d candidates)" % len(fn))
+    ctx.part.functions.append("types::TokenType::field_compare")
+    tok = EnumV("TokenType", "Text", [AsciiStrV(t)])
+    same = z3.And([lower(a) == lower(b) for a, b in zip(e, t)])
+    rp = ("k_replay_text_field", [(c, "u8") for c in e + t])
+    n = 0
+    for expected, want in ((EnumV("Option", "Some", [AsciiStrV(e)]), same), (EnumV("Option", "None", []), z3.BoolVal(True))):
+        field = EnumV("FieldType", "Text", [StrV("coin"), expected])
+        for o in ex.run(fn[0], [RefV(tok), RefV(field)], Path()):
+            ctx.paths += 1
+            if o.kind == "panic":
+                ctx.reachable(ex, o.path, "field_compare can panic: " + o.msg, rp)
+                continue
+            n += 1
+            ctx.part.queries += 1
+            got = o.value if z3.is_expr(o.value) else z3.BoolVal(bool(o.value))
+            ctx.claim(ex, o.path, got == want, "a {TEXT:name:EXPECTED} field does not match exactly the texts equal to EXPECTED ignoring case", rp)
+    if not n:
+        ctx.failures.append(("field_compare: nothing executed", {}, None))
 
 
 @spec("C18", "m_unit_chain_order", "DynamicTypeItem::calculate_unit over a user-defined family of four units (MIR; programs are opaque texts, the program evaluation is an uninterpreted function), every ordered pair of source and target index: the programs run are the upgrade programs of source, source+1 .. target-1 resp. the downgrade programs of source, source-1 .. target+1 - in that order, each applied to the previous result, the first to the amount - and the result is the last value: a family converts along its declared chain also when its steps do not commute")
@@ -4853,3 +4934,9 @@ def _(ctx):
 @spec("C14", "m_small_date", "small_date registered for C14 as well: '<date> as unix' is counted from the calendar date that was written (years 1..9999, no two-digit year expansion)")
 def _(ctx):
     _reuse("C09", "m_small_date")(ctx)
+
+
+
+@spec("C06", "m_money_literals", "the money literal kernel registered for C06 (money_regex_parser on a PRICE group written in the configured convention with a magnitude suffix k K M G T P Z Y as a symbolic text, the currency resolved through the symbolic tables): the amount is the number written times the power of 1000 of its suffix, in the named currency")
+def _(ctx):
+    number_literal_spec(ctx, ("money_regex_parser",))
